@@ -5,6 +5,7 @@ pub mod evidence;
 pub mod genp;
 pub mod interp;
 pub mod model;
+pub mod oracles;
 pub mod ov;
 pub mod probe;
 pub mod pv;
